@@ -209,6 +209,23 @@ def run(ctx):
     (ctx.bad if probs else ctx.ok)("X-LPM", "X-LPM:ArpRouter::demux", dm.span, "; ".join(probs) if probs else
         "next hop and interface come from get_recipient(header.destination); no route => early return; task sends on that interface to the resolved MAC")
     x_resolved(ctx, prog, task)
+    # "leads nowhere => dropped" rests on the route lookup answering None when no entry contains the destination
+    gr = prog.method("IpTable", "get_recipient")
+    scope = [gr] + [b for b in prog.bodies.values() if b.parent == gr.key]
+    fb, has_contains = [], False
+    for b in scope:
+        for bb, t in K.calls(b):
+            nm = (F.callee_key(t) or "").rsplit("::", 1)[-1]
+            if nm == "contains" and "subnetting" in (F.callee_key(t) or ""):
+                has_contains = True
+            if nm in ("or", "or_else", "unwrap_or", "unwrap_or_else", "unwrap_or_default", "next_back", "last", "rev", "first", "nth", "get_or_insert"):
+                fb.append((nm, F.call_loc(t)))
+    gp = []
+    if not has_contains:
+        gp.append("IpTable::get_recipient no longer tests whether an entry contains the address")
+    if fb:
+        gp.append("IpTable::get_recipient has a fallback (%s at %s): a destination that no entry contains still gets a recipient, so a router forwards datagrams it has no route for along an unrelated route instead of dropping them" % fb[0])
+    (ctx.bad if gp else ctx.ok)("X-LPM", "X-LPM:IpTable::get_recipient", gr.span, "; ".join(gp) if gp else "the lookup answers only with an entry that contains the address, None otherwise")
     # the decremented copy survives re-serialisation: serialize() hands the header's own TTL (and addresses, length,
     # fragment fields) to the encoder - a fresh default TTL would make every hop forward with a full time-to-live
     from . import c08
